@@ -27,6 +27,7 @@ REQUIRED = {
         'sy-tables-checked': 20,
         'sy-published-set-vs-R-transcription': 1,
         'sy-corner-sets': 2,
+        'sy-sets-differing-only-in-sd': 4,
         'sy-sets-with-integer-valued-parameters': 2,
         'sy-interpolation-points-checked': 2000,
         'T-values-checked': 3000,
@@ -157,6 +158,12 @@ def run(ctx):
             p = gen_params.peatclsm_sy(rng)
             p.update(sd=[1e-3, 2.0][i - 1], b=[0.01, 20.0][i - 1])
             check_sy(ctx, rng, p)
+        elif i % 4 == 3:
+            # the same soil with another microtopography (only sd differs from the previous set)
+            p = gen_params.peatclsm_sy(rng)
+            check_sy(ctx, rng, p)
+            check_sy(ctx, rng, dict(p, sd=float(p['sd']) * rng.choice([0.5, 1.7]) + 0.01))
+            ctx.rec.hit('sy-sets-differing-only-in-sd')
         else:
             check_sy(ctx, rng, gen_params.peatclsm_sy(rng))
     rng = ctx.rng('T')
